@@ -29,6 +29,10 @@ RULE = ("circuits of 1-5 blocks over 8 block kinds (probe SBlock, probe AddonMai
         "of the synchronous set were seen (tags stop-order-both-seen / stop-order-one-only); "
         "persistent probe blocks (persistent=True) with and without an entry in the storage, so that the 'save the "
         "state' step of run_forever meets started but uninitialised blocks; the storage entries after the run are compared; "
+        "a caller of wait_init() -- plain task, supporting coroutine of run() (cancelled by run() when the first task "
+        "ends), or a direct task cancelled from outside at a chosen instant while the circuit keeps running -- with every "
+        "cause, before and after the initialisation is complete; the helper task of wait_init() is looked for among ALL "
+        "tasks of the loop (by its coroutine) just before / right after the outside cancellation and at the end; "
         "a storage whose __setitem__ (and pop) raise from the moment the circuit has recorded its error, with every "
         "cause and circuit shape that has a persistent block; a case is distinct by its (input lines, trace) hash, non-trivial when at least one block was started")
 ASSUMPTIONS = [
@@ -445,11 +449,18 @@ def run_once(scn, pad=0):
         if cause.get('before'):
             circuit.abort(Boom('before') if cause['kind'] in ERROR_KINDS else asyncio.CancelledError('before'))
 
-        async def putter():
+        def helper_present():
+            """is a helper task of wait_init() (`self._init_done.wait()`) alive -- whoever created it"""
+            return any(not t.done() and getattr(t.get_coro(), '__qualname__', '') == 'Event.wait'
+                       for t in asyncio.all_tasks())
+
+        async def putter(as_support=False):
             try:
                 await circuit.wait_init()
             except Exception as err:
                 notes['wait_init'] = type(err).__name__
+                if as_support:
+                    await asyncio.sleep(FAR)    # a supporting coroutine must not return
                 return
             notes['wait_init'] = 'returned'
             for o, b in zip(objs, scn['blocks']):
@@ -458,6 +469,31 @@ def run_once(scn, pad=0):
                         edzed.ExtEvent(o).send('v')
                     except Exception as err:
                         notes.setdefault('put_refused', type(err).__name__)
+            if as_support:
+                await asyncio.sleep(FAR)
+
+        async def canceller(wtask):
+            """cancel the task that awaits wait_init() from outside, while the circuit keeps running"""
+            await asyncio.sleep(scn['wcancel'] / 1000)
+            probe = {'t': scn['wcancel'], 'before': helper_present(), 'waiting': not wtask.done()}
+            wtask.cancel()
+            for _ in range(3):
+                await asyncio.sleep(0)
+            probe['after'] = helper_present()
+            probe['error_after'] = repr(circuit.error)
+            notes['probe'] = probe
+
+        def start_waiter():
+            w = scn.get('waiter') or 'task'
+            if not scn.get('wait_init') or w == 'support':
+                return
+            if w == 'cancel':
+                wtask = asyncio.create_task(circuit.wait_init())
+                wtask.add_done_callback(lambda t: t.cancelled() or t.exception())
+                helpers.append(wtask)
+                helpers.append(asyncio.create_task(canceller(wtask)))
+            else:
+                helpers.append(asyncio.create_task(putter()))
 
         async def driver_task():
             """requests for the run_forever runner"""
@@ -501,8 +537,7 @@ def run_once(scn, pad=0):
         run_error = None
         if runner == 'task':
             simtask = asyncio.create_task(circuit.run_forever())
-            if scn.get('wait_init'):
-                helpers.append(asyncio.create_task(putter()))
+            start_waiter()
             await asyncio.sleep(0)      # the simulation task has started its blocks and yields
             if cause['time'] == 0 and not cause.get('before'):
                 # instant 0: the request is made right now, before the simulation task resumes
@@ -522,9 +557,12 @@ def run_once(scn, pad=0):
         else:
             old_handler = signal.getsignal(signal.SIGTERM)
             signal.signal(signal.SIGTERM, signal.SIG_IGN)   # what run() restores afterwards
-            runtask = asyncio.create_task(edzed.run(support()))
-            if scn.get('wait_init'):
-                helpers.append(asyncio.create_task(putter()))
+            if scn.get('wait_init') and scn.get('waiter') == 'support':
+                # the caller of wait_init() is a supporting coroutine: run() cancels it when the first task ends
+                runtask = asyncio.create_task(edzed.run(support(), putter(as_support=True)))
+            else:
+                runtask = asyncio.create_task(edzed.run(support()))
+            start_waiter()
             try:
                 await asyncio.wait([runtask])
             finally:
@@ -629,12 +667,19 @@ def order_sensitive(scn):
                for b in scn['blocks'])
 
 
+def waiter_token(scn):
+    if not scn.get('wait_init'):
+        return '-'
+    w = scn.get('waiter') or 'task'
+    return {'task': 't', 'support': 's'}.get(w) or f"c{scn['wcancel']}"
+
+
 def encode_run(scn, r):
     cause = scn['cause']
     lines = [f"lifecycle reset {cause['kind']} {int(bool(cause.get('before')))} {cause['time']} "
              f"{int(bool(cause.get('late')))} {int(bool(scn.get('wait_init')))} "
              f"{int(bool(cause.get('raise_after')))} {scn.get('sfault') or 'n'} "
-             f"{cause['target'] if cause.get('target') is not None else '-'}"]
+             f"{cause['target'] if cause.get('target') is not None else '-'} {waiter_token(scn)}"]
     trace = ['ok']
     for i, b in enumerate(scn['blocks']):
         lines.append(blk_line(b))
@@ -663,6 +708,13 @@ def encode_run(scn, r):
     trace.append(','.join(r['storage']) or '-')
     lines.append('lifecycle left')
     trace.append(','.join(r['left']) or '-')
+    probe = r['notes'].get('probe')
+    if probe:
+        # the helper task of wait_init() just before and right after its caller was cancelled from outside
+        lines.append(f"lifecycle helperat {probe['t'] - 1}")
+        trace.append('alive' if probe['before'] else 'gone')
+        lines.append(f"lifecycle helperat {probe['t']}")
+        trace.append('alive' if probe['after'] else 'gone')
     lines.append('lifecycle after')
     trace.append(f"restart={r['restart']} modify={r['modify']}")
     lines.append('lifecycle end')
@@ -705,6 +757,11 @@ def run_impl(scn):
     faults = sorted(set(''.join(b.get('flags', '') for b in scn['blocks'])) & set('SRAGVCHPQ'))
     tags.append('faults=' + (''.join(faults) or '-'))
     tags.append('storage-fault=' + (scn.get('sfault') or '-'))
+    tags.append('waiter=' + (waiter_token(scn)[0]))
+    for r in runs[:1]:
+        pr = r['notes'].get('probe')
+        if pr:
+            tags.append('cancelled-in-wait_init' if pr['waiting'] else 'cancelled-after-wait_init')
     return {'lines': lines, 'trace': trace, 'tags': tags, 'nontrivial': started,
             'runs': [{k: v for k, v in r.items() if k != 'error'} | {'error': repr(r['error'])} for r in runs]}
 
@@ -712,7 +769,7 @@ def run_impl(scn):
 # ------------------------------------------------------------------ oracle (from the property text)
 
 PRIORITY = ['stop_exactly_started', 'cleanup_error_isolated', 'async_before_sync', 'stop_async_awaited_bounded',
-            'simulation_finished', 'raises_recorded_error', 'no_restart_no_modify', 'no_live_task_at_end', 'no_pending_timer',
+            'simulation_finished', 'raises_recorded_error', 'wait_init_helper_outlives_call', 'no_restart_no_modify', 'no_live_task_at_end', 'no_pending_timer',
             'no_live_init_task', 'stop_data_last', 'event_shutdown_documented', 'no_live_helper_task']
 KNOWN_SHAPES = ('outputasync_not_initialized',)
 
@@ -742,6 +799,12 @@ def oracle_run(scn, r):
     stops = [k for kind, k, _x, _t in log if kind == 'stop']
     faults = ''.join(b.get('flags', '') for b in scn['blocks'])
     cleanup_faults = 'P' in faults or 'Q' in faults
+    probe = r['notes'].get('probe')
+    if probe and probe['after']:
+        out.append({'clause': 'wait_init_helper_outlives_call',
+                    'what': f"the task awaiting wait_init() was cancelled at {probe['t']} ms (it was "
+                            f"{'waiting' if probe['waiting'] else 'done'}); the helper task `_init_done.wait()` that "
+                            'wait_init() created is still pending after the call has ended'})
     if not r.get('raised_recorded', True):
         out.append({'clause': 'raises_recorded_error',
                     'what': f"run_forever() raised {r['run_error']}, the recorded error is {r.get('error')}"})
@@ -822,7 +885,7 @@ def mk(kind, flags='', **kw):
     return b
 
 
-def finish(blocks, cause, rng=None, runner=None, wait_init=None, sfault=None):
+def finish(blocks, cause, rng=None, runner=None, wait_init=None, sfault=None, waiter=None, wcancel=None):
     """fill in distinct durations, the trigger/control blocks and the wait_init flag"""
     blocks = [dict(b) for b in blocks]
     for i, b in enumerate(blocks):
@@ -856,6 +919,13 @@ def finish(blocks, cause, rng=None, runner=None, wait_init=None, sfault=None):
     scn['runner'] = runner
     has_outf = any(b['kind'] == 'outf' for b in blocks)
     scn['wait_init'] = bool(has_outf or wait_init) and not cause.get('before')
+    if scn['wait_init'] and waiter in ('support', 'cancel'):
+        # who awaits wait_init(): a supporting coroutine of run() / a task that is cancelled from outside
+        if waiter == 'support' and runner == 'run':
+            scn['waiter'] = 'support'
+        elif waiter == 'cancel' and not has_outf:
+            scn['waiter'] = 'cancel'
+            scn['wcancel'] = wcancel
     if sfault and any(f in b.get('flags', '') for b in blocks for f in 'rp'):
         scn['sfault'] = sfault      # only with a storage, i.e. with a persistent block
     return scn
@@ -940,6 +1010,22 @@ def defect_scenarios():
     # a persistent block that is started but still uninitialised when the simulation is terminated, with and
     # without an old entry in the storage: init_regular fault of an earlier / later block, never initialised
     # block, abort during the asynchronous initialisation, start() fault after it
+    # somebody is waiting in wait_init() when the simulation is terminated / is cancelled there from outside:
+    # every cause, before and after the initialisation is complete (base circuit: async init until 140)
+    for ck in ('supportEnd', 'supportFail', 'sigterm', 'shutdown', 'abort'):
+        for t in (15, 35, 205):
+            yield finish(base_circuit(), {'kind': ck, 'time': t}, runner='run', wait_init=True, waiter='support')
+            for wc in (9, 29, 159, 259):
+                yield finish(base_circuit(), {'kind': ck, 'time': t}, runner='run', wait_init=True,
+                             waiter='cancel', wcancel=wc)
+    for ck in ('shutdown', 'abort', 'ctrlShutdown', 'ctrlAbort', 'innerShutdown'):
+        for t in (15, 205, 805):
+            if ck.startswith(('ctrl', 'inner')) and t < 800:
+                continue
+            for wc in (9, 29, 159, 609):
+                yield finish(base_circuit(), {'kind': ck, 'time': t}, wait_init=True, waiter='cancel', wcancel=wc)
+    yield finish([mk('sync', 'sG'), mk('async', 's')], {'kind': 'shutdown', 'time': 205}, runner='run', wait_init=True,
+                 waiter='support')
     # the storage fails when the simulation is being stopped: the save step must not prevent the clean-up
     for sf in ('w', 'p'):
         for ck in ('shutdown', 'abort', 'supportEnd', 'sigterm'):
@@ -1063,8 +1149,10 @@ def random_scenario(rng):
         cause['before'] = True
         cause['kind'] = rng.choice(['shutdown', 'abort'])
         runner = 'task'
-    return finish(blocks, cause, rng=rng, runner=runner, wait_init=rng.random() < 0.4,
-                  sfault=rng.choice([None, None, None, 'w', 'p']))
+    return finish(blocks, cause, rng=rng, runner=runner, wait_init=rng.random() < 0.55,
+                  sfault=rng.choice([None, None, None, 'w', 'p']),
+                  waiter=rng.choice([None, 'support', 'support', 'cancel', 'cancel']),
+                  wcancel=rng.choice([9, 19, 29, 49, 69, 109, 159, 209, 409, 609, 809]))
 
 
 def scenarios(rng, tier):
